@@ -675,3 +675,5 @@ M('C15', 'sample-uniform-total-before-push', 'src/geom3/mesh/sampling.rs', "    
 M('C17', 'between-closing-le', 'src/func1/series1.rs', "        if xs[xs.len() - 1] < x1 {", "        if xs[xs.len() - 1] < x1 && !ys.is_empty() && ys[0] >= 0.0 {", 'between:x1:closing-test')
 M('C19', 'mean-point-weighted-skip-first', 'src/common/points.rs', "    for (p, w) in points.iter().zip(weights) {\n        sum += p.coords * *w;", "    for (p, w) in points.iter().zip(weights).skip(1) {\n        sum += p.coords * *w;", 'mean_point_weighted')
 M('C08', 'from-rotation-angle-order', 'src/geom3/align3/rotations.rs', "        let (w, p, r) = to_wpr(&m);\n        Self::from_euler(w, p, r)", "        let (w, p, r) = to_wpr(&m);\n        Self::from_euler(r, p, w)", 'RotationMatrices::from_rotation')
+M('C05', 'resampled_n-no-clamp', 'src/func1/series1.rs', ".map(|i| (self.x_min() + (i as f64) * step_size).min(self.x_max()))", ".map(|i| self.x_min() + (i as f64) * step_size)", 'resampled_n:contract')
+M('C14', 'create-from-vertex-by-position', 'src/geom3/mesh/filtering.rs', "            .map(|i| self.vertices()[*i as usize])", "            .map(|i| self.vertices()[(*i as usize).min(self.vertices().len() - 1)])", 'create_from_indices:vertex-copy')
